@@ -141,6 +141,13 @@ def gen_cases(tier, seed):
                 cases.append(dict(kind='reduce', degree=p, dim='3', net='coded', rows=0, src='model', prior=[prior]))
     for p in (1, 2, 4):
         cases.append(dict(kind='elevate', degree=p, num=1, omit_num=True, dim='3', net='coded', rows=0))
+    # the same operation on Bezier curve OBJECTS through operations.degree_operations (the other documented route), on
+    # normalised knots and on knot ranges kept as given
+    for p in (1, 2, 3, 5) if q else (1, 2, 3, 4, 5, 6):
+        for t in (1, 2):
+            for rng in ([0.0, 1.0, True], [2.0, 5.0, False], [-5.0, -1.0, False], [0.0, 3.0, False]):
+                for rat in (False, True):
+                    cases.append(dict(kind='object', degree=p, num=t, dim='3', net='coded', rows=0, range=rng, rational=rat))
     return cases
 
 
@@ -163,8 +170,66 @@ def run_case(case, ctx):
         _reduce_multi(case, ctx)
     elif k == 'reject':
         _reject(case, ctx)
+    elif k == 'object':
+        _object(case, ctx)
     else:
         raise ValueError(k)
+
+
+def _object(case, ctx):
+    """a single-span (Bezier) curve object elevated by t and reduced again through operations.degree_operations"""
+    from geomdl import BSpline, NURBS, operations
+    p, t, (lo, hi, norm), rat = case['degree'], case['num'], case['range'], case['rational']
+    pts = A.make_net([p + 1], 3, 'coded')
+    w = A.make_weights([p + 1], 'coded') if rat else [1.0] * (p + 1)
+    Pw = [[c * wi for c in pt] + [wi] for pt, wi in zip(pts, w)]
+    crv = (NURBS.Curve if rat else BSpline.Curve)(**({} if norm else dict(normalize_kv=False)))
+    crv.degree = p
+    crv.set_ctrlpts(copy.deepcopy(Pw if rat else pts))
+    crv.knotvector = [lo] * (p + 1) + [hi] * (p + 1)
+    f = dict(degree=p, num=t, rational=rat, normalize_kv=norm, range=[lo, hi], route='operations.degree_operations')
+    ctx.state(dict(k='obj', c=case), nontrivial=True)
+    exact0 = _exact(Pw if rat else pts)
+    sc = max(1.0, max(abs(c) for pt in (Pw if rat else pts) for c in pt))
+    try:
+        operations.degree_operations(crv, [t])
+    except Exception as e:
+        ctx.check('C08.object.elevation.accepted', False, case, f, 'elevated curve', repr(e))
+        return
+    ctx.check('C08.object.elevation.accepted', True, case, f)
+    E = R.bezier_elevate(exact0, t)
+    got = [list(x) for x in (crv.ctrlptsw if rat else crv.ctrlpts)]
+    ok = ctx.check('C08.object.elevation.degree_and_size', crv.degree == p + t and len(got) == p + t + 1, case, f, [p + t, p + t + 1],
+                   [crv.degree, len(got)])
+    ctx.check('C08.object.elevation.knotvector', [float(k) for k in crv.knotvector] == [lo] * (p + t + 1) + [hi] * (p + t + 1), case, f,
+              [lo] * (p + t + 1) + [hi] * (p + t + 1), list(crv.knotvector))
+    if ok:
+        ctx.close('C08.object.elevation.polygon', got, E, 1e-12, sc, case, f)
+        # the curve itself, at parameters of its own domain
+        m = R.def_from_obj(crv)
+        d0, d1 = R.domain(p + t, m['kvs'][0])
+        ctx.check('C08.object.elevation.domain', (float(d0), float(d1)) == (lo, hi), case, f, [lo, hi], [float(d0), float(d1)])
+        if (float(d0), float(d1)) == (lo, hi):
+            for i in range(0, 9):
+                u = lo + (hi - lo) * i / 8.0
+                x = (F(u) - F(lo)) / (F(hi) - F(lo))
+                b = R.bezier_point(exact0, x)
+                exp = [c / b[-1] for c in b[:-1]] if rat else list(b)
+                ctx.close('C08.object.elevation.same_curve', crv.evaluate_single(u), exp, 1e-10, sc, dict(case, u=u), f)
+    # reduce t times: the original polygon comes back
+    try:
+        for _ in range(t):
+            operations.degree_operations(crv, [-1])
+    except Exception as e:
+        ctx.check('C08.object.reduction.accepted', False, case, f, 'reduced curve', repr(e))
+        return
+    ctx.check('C08.object.reduction.accepted', True, case, f)
+    back = [list(x) for x in (crv.ctrlptsw if rat else crv.ctrlpts)]
+    if ctx.check('C08.object.reduction.degree_and_size', crv.degree == p and len(back) == p + 1, case, f, [p, p + 1], [crv.degree, len(back)]):
+        ctx.close('C08.object.reduction.roundtrip', back, exact0, 1e-9, sc, case, f)
+        ctx.check('C08.object.reduction.knotvector', [float(k) for k in crv.knotvector] == [lo] * (p + 1) + [hi] * (p + 1), case, f,
+                  [lo] * (p + 1) + [hi] * (p + 1), list(crv.knotvector))
+    ctx.outcome(('obj', p, t, rat, norm))
 
 
 PRIORS = ['elevate_num3', 'elevate_nocheck', 'reduce_nocheck', 'elevate_rows_num2']
